@@ -1,0 +1,5 @@
+//go:build !verif
+
+package protocol
+
+func (p *Protocol) verifEv(string, int, int, int64, int64, string, string, []byte) {}
